@@ -283,6 +283,8 @@ const prelude = `(set-option :produce-models true)
 (declare-fun strcat (Str Str) Str)
 (declare-const emptystr Str)
 (assert (= (strlen emptystr) 0))
+(declare-const zerorow$Str (Array Path Str))
+(assert (forall ((p Path)) (! (= (select zerorow$Str p) emptystr) :pattern ((select zerorow$Str p)))))
 `
 
 // Query accumulates declarations, definitions and assumptions in program order.
@@ -386,3 +388,6 @@ func sortedKeys(m map[string]Term) []string {
 	sort.Strings(ks)
 	return ks
 }
+
+// EIdx is the uninterpreted element index eidx(off,i) (= off+i by a prelude axiom).
+func EIdx(off, i Term) Term { return App(SInt, "eidx", off, i) }
